@@ -15,10 +15,12 @@ import (
 // a daemon started the way mainLoop starts it (real listeners, real update loops), for configuration reloads
 
 type daemonWorld struct {
-	inst     *lmd.VerifInstance
-	backends map[string]*backend.Backend
-	dir      string
-	cfg      lmd.VerifConfig
+	inst      *lmd.VerifInstance
+	backends  map[string]*backend.Backend
+	dir       string
+	cfg       lmd.VerifConfig
+	lastConns []lmd.VerifConn
+	listen_   []string
 }
 
 var curDaemon *daemonWorld
@@ -128,6 +130,7 @@ func daemonOp(out *bufio.Writer, op string, raw []byte, scratch string) bool {
 			return fail(err.Error())
 		}
 		lmd.VerifSetTicker(time.Duration(line.TickerMS) * time.Millisecond)
+		d.lastConns, d.listen_ = conns, d.listen(line.Listen)
 		d.inst = lmd.VerifStartDaemon(&line.Config, conns, d.listen(line.Listen))
 		curDaemon = d
 		res["settled"] = d.inst.VerifSettle(8 * time.Second)
@@ -167,6 +170,7 @@ func daemonOp(out *bufio.Writer, op string, raw []byte, scratch string) bool {
 			}()
 			time.Sleep(15 * time.Millisecond)
 		}
+		curDaemon.lastConns, curDaemon.listen_ = conns, curDaemon.listen(line.Listen)
 		curDaemon.inst.VerifReload(conns, curDaemon.listen(line.Listen))
 		res["settled"] = curDaemon.inst.VerifSettle(8 * time.Second)
 		if line.Text != "" {
